@@ -65,6 +65,10 @@ def realize(world, data, mod):
     """concretized counter-model data -> real python objects of the module under test"""
     if isinstance(data, dict) and "__classref__" in data:
         return getattr(mod, data["__classref__"])
+    if isinstance(data, dict) and "__set__" in data:
+        return set(realize(world, x, mod) for x in data["__set__"])
+    if isinstance(data, dict) and "__map__" in data:
+        return {realize(world, k, mod): realize(world, v, mod) for k, v in data["__map__"]}
     if isinstance(data, dict) and "__class__" in data:
         cls = getattr(mod, data["__class__"])
         fields = {k: realize(world, v, mod) for k, v in data.items() if k != "__class__"}
@@ -107,7 +111,7 @@ def verify_case(fc: FnContract, case: Case, timeout_ms=10000, budget_s=240):
         it.top_fn = fn
         it.in_top = True
         args = {p: fresh(ctx, t, p) for p, t in case.params.items()}
-        old = {k: (v.snapshot() if isinstance(v, (Rec, PyList, SeqV)) else v) for k, v in args.items()}
+        old = {k: (v.snapshot() if hasattr(v, "snapshot") else v) for k, v in args.items()}
         it.old_args = old
         stats["paths"] += 1
         try:
@@ -120,8 +124,15 @@ def verify_case(fc: FnContract, case: Case, timeout_ms=10000, budget_s=240):
                     ctx.assume(S.to_z3(case.requires(NS(args))))
                 if case.ghost:
                     case.ghost(ctx, NS(args))
-                if ctx._check() == z3.unsat:
-                    return dict(status=FAULT, detail="precondition is unsatisfiable (vacuous contract)", stats=stats)
+                if stats["paths"] == 1 or ctx.qf_solver is None:
+                    # vacuity guard (with quantified theory axioms a model is rarely produced: short budget, first path only --
+                    # an inconsistent precondition is refuted quickly or not at all)
+                    if ctx.qf_solver is not None:
+                        ctx.solver.set("timeout", 2500)
+                    vac = ctx._check()
+                    ctx.solver.set("timeout", timeout_ms)
+                    if vac == z3.unsat:
+                        return dict(status=FAULT, detail="precondition is unsatisfiable (vacuous contract)", stats=stats)
                 outcome, value = "return", None
                 try:
                     env = it.bind(fn, [args[p] for p in case.params], {})
@@ -167,6 +178,12 @@ def verify_case(fc: FnContract, case: Case, timeout_ms=10000, budget_s=240):
                         ctx.prove(S.to_z3(allowed(ns_old)), f"raises:{value}")
                     if case.must_return is not None:
                         ctx.prove(S.to_z3(S.Not(case.must_return(ns_old))), f"must-return-but-raised:{value}")
+                if not stats.get("live"):
+                    # cover check: at least one completed path must not be refutably infeasible (else every VC was vacuous)
+                    ctx.solver.set("timeout", 1500)
+                    if ctx._check() != z3.unsat:
+                        stats["live"] = 1
+                    ctx.solver.set("timeout", timeout_ms)
             except PathEnd:
                 stats["infeasible"] += 1
         except VCFailed as f:
@@ -185,6 +202,8 @@ def verify_case(fc: FnContract, case: Case, timeout_ms=10000, budget_s=240):
         work.extend(ctx.forks)
     if stats["vcs"] == 0:
         return dict(status=FAULT, detail="no verification condition generated", stats=stats)
+    if not stats.get("live"):
+        return dict(status=FAULT, detail="every explored path is infeasible: all verification conditions were vacuous", stats=stats)
     return dict(status=DISCHARGED, stats=stats, labels=vc_labels)
 
 
@@ -262,6 +281,8 @@ def gen_value(world, t, rng, depth=0):
             return float(rng.randint(-5, 9))
         return rng.choice([rng.randint(-5, 9) + 0.5, rng.uniform(-3, 3), float(rng.randint(-5, 9))])
     if k == "label":
+        if rng.random() < 0.12:
+            return rng.choice([-1, -2])      # CPython: hash(-1) == hash(-2): distinct labels (and tuples of them) with equal hashes
         return rng.choice(["L0", "L1", "L2", "L3", "L4", "L5"])
     if k == "none":
         return None
@@ -279,6 +300,11 @@ def gen_value(world, t, rng, depth=0):
         return tuple(gen_value(world, a, rng, depth + 1) for a in t.args)
     if k == "list":
         return [gen_value(world, t.args[0], rng, depth + 1) for _ in range(t.args[1])]
+    if k == "set":
+        return {"__set__": sorted({gen_value(world, t.args[0], rng, depth + 1) for _ in range(rng.choice([0, 1, 2, 3, 4]))}, key=str)}
+    if k == "map":
+        return {"__map__": [[kk, gen_value(world, t.args[1], rng, depth + 1)]
+                            for kk in sorted({gen_value(world, t.args[0], rng, depth + 1) for _ in range(rng.choice([0, 1, 2, 3, 5]))}, key=str)]}
     if k == "seq":
         n = rng.choice([0, 1, 1, 2, 2, 3, 3, 4, 5])
         return [gen_value(world, t.args[0], rng, depth + 1) for _ in range(n)]
@@ -372,6 +398,18 @@ def obligations_for(pid, fc: FnContract, tier="quick", finding=None, timeout=Non
                                replay=rp, extra=dict(extra, model=r["model"]))
             if r["status"] == FAULT:
                 return Outcome(FAULT, "pyvc", r["detail"], extra=extra)
+            if not r.get("unsupported"):
+                # the solver gave no verdict (quantified VCs rarely yield models): an undischarged obligation is not a violation,
+                # but a failing input of the REAL function against the executable contract is -- bounded native search
+                try:
+                    found = search_counterexample(fc, case, budget_s=30)
+                except Exception:  # pylint: disable=broad-except
+                    found = None
+                if found:
+                    rp, model = found
+                    return Outcome(REFUTED, "z3(unknown)+native-search", f"obligation not discharged ({r['detail']}); the real function "
+                                   "violates the executable contract on a generated input", witness=dict(inputs=S.show(model)),
+                                   replay=rp, extra=dict(extra, model=model))
             return Outcome(UNDECIDED, "pyvc", r["detail"], extra=extra)
 
         def replay(witness, fc=fc, case=case):
